@@ -257,9 +257,10 @@ class Macro(Composite, StaticNode, ScrapesIO, ABC):
         for node in ui_nodes:
             self.inputs[node.label].value_receiver = node.inputs.user_input
 
+        output_labels = self._get_output_labels()
         for node, output_channel_label in zip(
             returned_has_channel_objects,
-            () if self._output_labels is None else self._output_labels,
+            () if output_labels is None else output_labels,
             strict=False,
         ):
             node.channel.value_receiver = self.outputs[output_channel_label]
